@@ -33,6 +33,7 @@ theorem facts_envParsing : Generated.facts.envParsing = true := by decide
 theorem facts_recursionDiscipline : Generated.facts.recursionDiscipline = true := by decide
 theorem facts_lockDiscipline : Generated.facts.lockDiscipline = true := by decide
 theorem facts_rollback : Generated.facts.rollbackOnFailedBuild = true := by decide
+theorem facts_buildProtocol : Generated.facts.buildProtocol = true := by decide
 theorem facts_bufferContract : Generated.facts.bufferContract = true := by decide
 theorem facts_steadyStateAllocFree : Generated.facts.steadyStateAllocFree = true := by decide
 
